@@ -296,6 +296,47 @@ def check_molecule(ctx, case):
         ctx.count('elemental_clause_decided')
         if not check_units(ctx, case, est, T, True, want):
             ok = False
+    if ok and case.get('as_mol'):
+        # a molecule object DERIVED from the one just evaluated (copied and
+        # grown by a methyl group): its elemental term is its own
+        from rdkit import Chem
+        try:
+            rw = Chem.RWMol(arg)
+            anchor = [a.GetIdx() for a in rw.GetAtoms()
+                      if a.GetAtomicNum() == 6 and a.GetTotalNumHs() > 0]
+            child = None
+            if anchor:
+                k = rw.AddAtom(Chem.Atom(6))
+                rw.AddBond(anchor[0], k, Chem.BondType.SINGLE)
+                child = rw.GetMol()
+                # (no SanitizeMol here: an edited copy whose property cache
+                # is merely updated keeps whatever was attached to the parent)
+                child.UpdatePropertyCache(strict=False)
+        except Exception:
+            child = None
+        if child is not None:
+            csmi = Chem.MolToSmiles(child)
+            d2 = observe(lib.GetDescriptors, child)
+            e2 = observe(lib.Estimate, d2['ok'], 'thermochem') \
+                if 'ok' in d2 else d2
+            if 'ok' in e2:
+                T = temps_for(e2['ok'], rng)[0]
+                a0 = observe(e2['ok'].get_SoR, T)
+                a1 = observe(e2['ok'].get_SoR, T, S_elements=True)
+                ctx.evals(2)
+                if 'ok' in a0 and 'ok' in a1:
+                    wantc = elemental_sum(csmi)
+                    if not close(a0['ok'] - a1['ok'], wantc, rel=1e-11,
+                                 abs_=0.0, scale=abs(a0['ok']) + wantc):
+                        ctx.violation('elemental term of a molecule object '
+                                      'derived from an evaluated one is not '
+                                      'its own', dict(case, child=csmi),
+                                      {'T': T, 'got': a0['ok'] - a1['ok'],
+                                       'want': wantc, 'parent_sum': want})
+                        ok = False
+                    else:
+                        ctx.count('derived_molecule_objects_checked')
+            observe(lib.GetDescriptors, smi)
     if ok:
         ctx.nontrivial(['mol', case['lib'], smi, bool(case.get('as_mol'))])
         ctx.klass('molecule estimates')
@@ -338,7 +379,7 @@ def run_shard(ctx):
         for k, s in enumerate(pl):
             if ctx.mine(i):
                 check_molecule(ctx, {'lib': name, 'smiles': s,
-                                     'as_mol': k % 17 == 3})
+                                     'as_mol': k % 5 == 3})
                 # ... and a molecule this library object decomposed two
                 # steps ago once more (A, B, A): "decomposed immediately
                 # before the estimate" also when it is not the first time
